@@ -212,6 +212,9 @@ class WorldAdapter:
         def p_on_add(self):
             env.seen_processors = env.w.processors      # reading the world from a lifecycle callback is everyday code
             env.log.append(('on_add', self.name, -1))
+            if env.fault == ('on_add', self.name):
+                env.fault = None
+                raise Boom()
 
         def p_on_remove(self):
             env.seen_processors = env.w.processors
@@ -268,7 +271,9 @@ class WorldAdapter:
                 self._delete(pyid(args[0]))
             elif name == 'DeleteImmediate':
                 w.delete_entity(pyid(args[0]), immediate=True)
-            elif name == 'AddProcessor':
+            elif name in ('AddProcessor', 'AddProcessorFault'):
+                if name == 'AddProcessorFault':
+                    env.fault = ('on_add', args[0])
                 if args[1] == 999:
                     self._add_processor(env.procs[args[0]])
                 else:
